@@ -7,6 +7,7 @@ package main
 // sequence read.
 
 import (
+	"encoding/binary"
 	"errors"
 	"fmt"
 	"io"
@@ -753,10 +754,51 @@ func rawRead(t *rhp2.Transport, maxLen uint64) (*rhp2.RPCReadResponse, error) {
 	if err != nil {
 		return nil, err
 	}
+	// Parse the unauthenticated stream with a defensive reader of our own (a
+	// renter must not trust lengths before VerifyTag; RPCReadResponse.DecodeFrom
+	// panics on hostile lengths, which is C10's finding, not this monitor's).
 	var resp rhp2.RPCReadResponse
-	d := types.NewDecoder(io.LimitedReader{R: rr, N: int64(maxLen)})
-	resp.DecodeFrom(d)
-	derr := d.Err()
+	var derr error
+	readN := func(n uint64) []byte {
+		if derr != nil {
+			return nil
+		}
+		if n > maxLen {
+			derr = fmt.Errorf("length %d exceeds the caller's limit", n)
+			return nil
+		}
+		buf := make([]byte, n)
+		if _, err := io.ReadFull(rr, buf); err != nil {
+			derr = err
+			return nil
+		}
+		return buf
+	}
+	u64 := func() uint64 {
+		b := readN(8)
+		if b == nil {
+			return 0
+		}
+		return binary.LittleEndian.Uint64(b)
+	}
+	if n := u64(); derr == nil && n != 64 {
+		derr = fmt.Errorf("signature length %d", n)
+	}
+	copy(resp.Signature[:], readN(64))
+	resp.Data = readN(u64())
+	if np := u64(); derr == nil {
+		if np > maxLen/32 {
+			derr = fmt.Errorf("proof length %d exceeds the caller's limit", np)
+		}
+		for i := uint64(0); i < np && derr == nil; i++ {
+			var h types.Hash256
+			copy(h[:], readN(32))
+			resp.MerkleProof = append(resp.MerkleProof, h)
+		}
+	}
+	if len(resp.Data) == 0 {
+		resp.Data = nil
+	}
 	if verr := rr.VerifyTag(); verr != nil {
 		return nil, verr
 	}
